@@ -1,11 +1,13 @@
 PROP = {
     "id": "C03",
     "theorem_modules": ["Verif.Properties.C03"],
-    "min_theorems": 8,
+    "min_theorems": 10,
     "required_theorems": [
         "Verif.Properties.C03.sound_straightline_partial",
         "Verif.Properties.C03.merge_pointwise",
         "Verif.Properties.C03.errors_accumulate",
+        "Verif.Properties.C03.judge_paths_are_paths",
+        "Verif.Properties.C03.judge_nonlinear_exact",
         "Verif.Properties.C03.unsound_witness_loop_then_halt",
         "Verif.Properties.C03.incomplete_witness_break",
         "Verif.Properties.C03.incomplete_witness_halt",
@@ -25,7 +27,7 @@ PROP = {
                   "statement language read from the real parser's AST. Judge: non-deterministic path semantics "
                   "(events create/use/move/destroy/scopeEnd, Linear). Proved: soundness of the port w.r.t. the path "
                   "semantics for straight-line functions (sound_straightline_partial), the pointwise characterisation "
-                  "of Resources.MergeBranches (merge_pointwise), error accumulation. The full-strength statements are "
+                  "of Resources.MergeBranches (merge_pointwise), error accumulation, exactness of the judge's "not linear" verdict for all functions and unroll bounds (judge_paths_are_paths, judge_nonlinear_exact). The full-strength statements are "
                   "false of the code: one soundness counterexample (loop invalidation followed by a halt) and four "
                   "completeness counterexamples are proved about the port and replayed on the Go checker (known findings). "
                   "Tie: stream `lin` compares the multiset of error kinds of the real checker with the port on every "
